@@ -14,6 +14,20 @@ structure IterOk (it : Iter) (d : Db) : Prop where
   cur : 0 < it.prev → it.prev.toNat ∈ d.loopRows it.cid it.loopNum
   future : ∀ r ∈ it.rows, r.rowNum ∈ d.loopRows it.cid it.loopNum ∧ it.prev < (r.rowNum : Int)
   sorted : it.rows.Pairwise (fun a b => a.rowNum ≤ b.rowNum)
+  /-- the names are exactly the loop's item names, in the loop's order -/
+  namesEq : it.names = (d.loopItems it.cid it.loopNum).map (·.name)
+  /-- the rows still to be delivered are what the store holds now (the iterator's snapshot has not gone stale) … -/
+  fresh : ∀ x ∈ it.rows, x ∈ d.values ∧ x.cid = it.cid ∧ (d.loopItems it.cid it.loopNum).any (fun i => i.name == x.name) = true
+  /-- … and they are all of it from the first pending row on -/
+  complete : ∀ v ∈ d.values, v.cid = it.cid → (d.loopItems it.cid it.loopNum).any (fun i => i.name == v.name) = true →
+    (∃ x ∈ it.rows, x.rowNum ≤ v.rowNum) → v ∈ it.rows
+  /-- no packet lies between the current one and the pending ones -/
+  above : 0 < it.prev → ∀ r ∈ d.loopRows it.cid it.loopNum, it.prev < (r : Int) → ∃ x ∈ it.rows, x.rowNum = r
+  /-- the pending rows have distinct keys (item_value's primary key) and `finished` says whether any is left -/
+  keys : it.rows.Pairwise ValueKeyNe
+  fin : it.finished = it.rows.isEmpty
+  /-- the iterated loop exists -/
+  loop : ∃ x ∈ d.loops, x.cid = it.cid ∧ x.loopNum = it.loopNum
 
 theorem IterOk.attached {it : Iter} {d : Db} (h : IterOk it d) : 0 < it.prev → it.Attached d := fun hp => ⟨h.cur hp, h.names⟩
 
@@ -49,6 +63,43 @@ theorem dropWhile_sorted_gt (a : Nat) : ∀ l : List ValueRow, l.Pairwise (fun a
       · exact hxa
       · have := hp.1 y hy; omega
 
+theorem mem_foldr_insertByRow_of_mem : ∀ (l : List ValueRow) (y : ValueRow), y ∈ l → y ∈ l.foldr Db.insertByRow []
+  | x :: xs, y, h => by
+    simp only [List.foldr_cons]
+    have key : ∀ (a : ValueRow) (l : List ValueRow) (z : ValueRow), (z = a ∨ z ∈ l) → z ∈ Db.insertByRow a l := by
+      intro a l
+      induction l with
+      | nil => intro z hz; rcases hz with rfl | hz; exact List.mem_singleton.mpr rfl; cases hz
+      | cons b bs ih =>
+        intro z hz
+        unfold Db.insertByRow
+        split
+        · rcases hz with rfl | hz
+          · exact List.mem_cons_self
+          · exact List.mem_cons_of_mem _ hz
+        · rcases hz with rfl | hz
+          · exact List.mem_cons_of_mem _ (ih _ (Or.inl rfl))
+          · rcases List.mem_cons.mp hz with rfl | hz
+            · exact List.mem_cons_self
+            · exact List.mem_cons_of_mem _ (ih _ (Or.inr hz))
+    rcases List.mem_cons.mp h with rfl | h
+    · exact key _ _ _ (Or.inl rfl)
+    · exact key _ _ _ (Or.inr (mem_foldr_insertByRow_of_mem xs y h))
+
+/-- in a list sorted by row number whose first element has row `a`, everything with another row number survives `dropWhile (== a)` -/
+theorem mem_dropWhile_of_ne (a : Nat) : ∀ l : List ValueRow, l.Pairwise (fun x y => x.rowNum ≤ y.rowNum) → (∀ x ∈ l, a ≤ x.rowNum) →
+    ∀ y ∈ l, y.rowNum ≠ a → y ∈ l.dropWhile (fun x => x.rowNum == a)
+  | [], _, _, y, hy, _ => by cases hy
+  | x :: xs, hp, hge, y, hy, hne => by
+    rw [List.pairwise_cons] at hp
+    by_cases hx : (x.rowNum == a) = true
+    · simp only [List.dropWhile_cons, hx, if_true]
+      rcases List.mem_cons.mp hy with rfl | hy
+      · exact absurd (by simpa using hx) hne
+      · exact mem_dropWhile_of_ne a xs hp.2 (fun z hz => hge z (List.mem_cons_of_mem _ hz)) y hy hne
+    · simp only [List.dropWhile_cons, hx, Bool.false_eq_true, if_false]
+      exact hy
+
 /-- cif_loop_get_packets through a valid handle -/
 theorem getPackets_iterOk (s s2 : Store) (l : LH) (it : Iter) (hv : l.Valid s.db) (hpk : Inv s.db)
     (h : getPackets s l = (s2, .ok it)) : s2.db = s.db ∧ IterOk it s.db := by
@@ -73,7 +124,7 @@ theorem getPackets_iterOk (s s2 : Store) (l : LH) (it : Iter) (hv : l.Valid s.db
         refine ⟨hdb2, ?_⟩
         subst hit
         simp only [] at hn hc hln ⊢
-        refine ⟨?_, ?_, ?_, ?_, ?_⟩
+        refine ⟨?_, ?_, ?_, ?_, ?_, ?_, ?_, ?_, ?_, ?_, ?_, ?_⟩
         · intro k hk
           simp only [] at hk ⊢
           have hk' : k ∈ names.map (·.1) := by simpa using hk
@@ -99,6 +150,31 @@ theorem getPackets_iterOk (s s2 : Store) (l : LH) (it : Iter) (hv : l.Valid s.db
           omega
         · simp only []
           exact foldr_insertByRow_sorted _
+        · simp only []
+          exact hn
+        · intro x hx
+          simp only [] at hx ⊢
+          rw [hdb2] at hx
+          obtain ⟨hxm, hxk⟩ := List.mem_filter.mp (mem_foldr_insertByRow _ x hx)
+          simp only [Bool.and_eq_true, beq_iff_eq] at hxk
+          exact ⟨hxm, hxk.1, hxk.2⟩
+        · intro v hv hvc hva _
+          simp only [] at hvc hva ⊢
+          rw [hdb2]
+          exact mem_foldr_insertByRow_of_mem _ v (List.mem_filter.mpr ⟨hv, by simp [hvc, hva]⟩)
+        · intro hp; simp at hp
+        · simp only []
+          rw [hdb2]
+          have hsym : ∀ a b : ValueRow, ValueKeyNe a b → ValueKeyNe b a := fun a b hab ⟨h1, h2, h3⟩ => hab ⟨h1.symm, h2.symm, h3.symm⟩
+          exact (sortByRow_spec hsym _ (hpk.valuePK.filter _)).1
+        · simp only []
+          rename_i hrows
+          cases hr : s2'.db.loopValues l.cid l.loopNum with
+          | nil => exact absurd hr hrows
+          | cons a b => rfl
+        · simp only []
+          obtain ⟨y, hy, k1, k2, _⟩ := hv
+          exact ⟨y, hy, k1, k2⟩
 
 /-- cif_pktitr_next_packet -/
 theorem nextPacket_iterOk (s : Store) (it : Iter) (d : Db) (h : IterOk it d) : IterOk (nextPacket s it).1 d := by
@@ -115,7 +191,13 @@ theorem nextPacket_iterOk (s : Store) (it : Iter) (d : Db) (h : IterOk it d) : I
       have hr := h.future r (by rw [hrows]; exact List.mem_cons_self)
       have hsorted := h.sorted
       rw [hrows] at hsorted
-      refine ⟨h.names, h.scalar, ?_, ?_, ?_⟩
+      have hge : ∀ x ∈ r :: rest, r.rowNum ≤ x.rowNum := by
+        intro x hx
+        rcases List.mem_cons.mp hx with rfl | hx
+        · exact Nat.le_refl _
+        · exact (List.pairwise_cons.mp hsorted).1 x hx
+      have hrm : r ∈ it.rows := by rw [hrows]; exact List.mem_cons_self
+      refine ⟨h.names, h.scalar, ?_, ?_, ?_, h.namesEq, ?_, ?_, ?_, h.keys.sublist (List.dropWhile_sublist _), rfl, h.loop⟩
       · intro _
         show (r.rowNum : Int).toNat ∈ _
         simp only [Int.toNat_natCast]
@@ -134,14 +216,27 @@ theorem nextPacket_iterOk (s : Store) (it : Iter) (d : Db) (h : IterOk it d) : I
         omega
       · show (it.rows.dropWhile (fun x => x.rowNum == r.rowNum)).Pairwise _
         exact h.sorted.sublist (List.dropWhile_sublist _)
-
-/-- a change of the database that keeps the loop table, the item table and every row of the iterated loop keeps the iterator tied -/
-theorem IterOk.mono {it : Iter} {d d' : Db} (h : IterOk it d) (hl : d'.loops = d.loops) (hi : d'.items = d.items)
-    (hr : ∀ r ∈ d.loopRows it.cid it.loopNum, r ∈ d'.loopRows it.cid it.loopNum) : IterOk it d' := by
-  have hli : d'.loopItems it.cid it.loopNum = d.loopItems it.cid it.loopNum := by simp only [Db.loopItems, hi]
-  refine ⟨?_, ?_, fun hp => hr _ (h.cur hp), fun r hrr => ⟨hr _ (h.future r hrr).1, (h.future r hrr).2⟩, h.sorted⟩
-  · intro k hk; rw [hli]; exact h.names k hk
-  · intro x hx; rw [hl] at hx; exact h.scalar x hx
+      · intro x hx
+        have hx' : x ∈ it.rows.dropWhile (fun x => x.rowNum == r.rowNum) := hx
+        exact h.fresh x ((List.dropWhile_sublist _).subset hx')
+      · intro v hv hvc hva ⟨x, hx, hxv⟩
+        have hx' : x ∈ (r :: rest).dropWhile (fun x => x.rowNum == r.rowNum) := by rw [← hrows]; exact hx
+        have hxsub : x ∈ it.rows := by rw [hrows]; exact (List.dropWhile_sublist _).subset hx'
+        have hvr := h.complete v hv hvc hva ⟨x, hxsub, hxv⟩
+        have hgt := dropWhile_sorted_gt r.rowNum (r :: rest) hsorted hge x hx'
+        show v ∈ it.rows.dropWhile (fun x => x.rowNum == r.rowNum)
+        rw [hrows]
+        exact mem_dropWhile_of_ne r.rowNum (r :: rest) hsorted hge v (by rw [← hrows]; exact hvr) (by omega)
+      · intro _ q hq hlt
+        have hlt' : r.rowNum < q := by
+          have : ((r.rowNum : Int)) < (q : Int) := hlt
+          omega
+        obtain ⟨v, hv, hvc, hva, hvr⟩ := (mem_loopRows_iff _ _ _ _).mp hq
+        have hvm := h.complete v hv hvc hva ⟨r, hrm, by omega⟩
+        refine ⟨v, ?_, hvr⟩
+        show v ∈ it.rows.dropWhile (fun x => x.rowNum == r.rowNum)
+        rw [hrows]
+        exact mem_dropWhile_of_ne r.rowNum (r :: rest) hsorted hge v (by rw [← hrows]; exact hvm) (by omega)
 
 theorem replaceValue_frame (d d' : Db) (cid : Nat) (k : Str) (row : Nat) (v : V) (he : d.replaceValue cid k row v = some d') :
     d'.loops = d.loops ∧ d'.items = d.items ∧ ∀ c n r, r ∈ d.loopRows c n → r ∈ d'.loopRows c n := by
@@ -176,22 +271,80 @@ theorem updateValues_frame : ∀ (p : List (Str × V)) (d d' : Db) (it : Iter), 
         exact ⟨a2.trans a1, b2.trans b1, fun c n r hr => c2 c n r (c1 c n r hr)⟩
     · cases he
 
-/-- cif_pktitr_update_packet keeps every iterator of the store tied (rows are only rewritten) -/
-theorem updatePacket_iterOk (s : Store) (it : Iter) (p : List (Str × V)) (it2 : Iter) (h2 : IterOk it2 s.db) :
-    IterOk it2 (updatePacket s it p).1.db := by
+/-- UPDATE_PACKET_ITEM_SQL at the iterator's current row keeps the iterator tied: the rows to come are not touched -/
+theorem IterOk.replaceValue {it : Iter} {d d' : Db} (h : IterOk it d) (hp : 0 < it.prev) (k : Str) (v : V)
+    (he : d.replaceValue it.cid k it.prev.toNat v = some d') : IterOk it d' := by
+  obtain ⟨hl, hi, hrows⟩ := replaceValue_frame d d' _ _ _ _ he
+  have hli : d'.loopItems it.cid it.loopNum = d.loopItems it.cid it.loopNum := by simp only [Db.loopItems, hi]
+  unfold Db.replaceValue at he
+  split at he; · cases he
+  split at he; · cases he
+  have hv : d'.values = d.values.filter (fun w => !(w.cid == it.cid && w.name == k && w.rowNum == it.prev.toNat)) ++
+      [{ cid := it.cid, name := k, rowNum := it.prev.toNat, val := v }] := by cases he; rfl
+  have hcur := h.cur hp
+  refine ⟨?_, ?_, fun _ => hrows _ _ _ hcur, fun r hr => ⟨hrows _ _ _ (h.future r hr).1, (h.future r hr).2⟩, h.sorted, ?_, ?_, ?_, ?_, h.keys, h.fin, by rw [hl]; exact h.loop⟩
+  · intro k' hk'; rw [hli]; exact h.names k' hk'
+  · intro x hx; rw [hl] at hx; exact h.scalar x hx
+  · rw [hli]; exact h.namesEq
+  · intro x hx
+    obtain ⟨f1, f2, f3⟩ := h.fresh x hx
+    refine ⟨?_, f2, by rw [hli]; exact f3⟩
+    rw [hv]
+    refine List.mem_append_left _ (List.mem_filter.mpr ⟨f1, ?_⟩)
+    have hgt := (h.future x hx).2
+    have : (x.rowNum == it.prev.toNat) = false := by
+      have : x.rowNum ≠ it.prev.toNat := by omega
+      simpa using this
+    simp [this]
+  · intro w hw hwc hwa hex
+    rw [hli] at hwa
+    rw [hv] at hw
+    rcases List.mem_append.mp hw with h1 | h1
+    · exact h.complete w (List.mem_filter.mp h1).1 hwc hwa hex
+    · simp at h1; subst h1
+      obtain ⟨x, hx, hxv⟩ := hex
+      have hgt := (h.future x hx).2
+      simp only [] at hxv
+      omega
+  · intro _ r hr hlt
+    apply h.above hp r ?_ hlt
+    obtain ⟨w, hw, hwc, hwa, hwr⟩ := (mem_loopRows_iff _ _ _ _).mp hr
+    rw [hli] at hwa
+    rw [hv] at hw
+    rcases List.mem_append.mp hw with h1 | h1
+    · exact (mem_loopRows_iff _ _ _ _).mpr ⟨w, (List.mem_filter.mp h1).1, hwc, hwa, hwr⟩
+    · simp at h1; subst h1
+      simp only [] at hwr
+      rw [← hwr]; exact hcur
+
+theorem updateValues_iterOk : ∀ (p : List (Str × V)) (d d' : Db) (it : Iter), IterOk it d → 0 < it.prev →
+    updateValues d it p = .ok d' → IterOk it d'
+  | [], d, d', _, h, _, he => by simp [updateValues] at he; subst he; exact h
+  | (k, v) :: es, d, d', it, h, hp, he => by
+    unfold updateValues at he
+    split at he
+    · split at he
+      · cases he
+      · rename_i d1 hrep
+        exact updateValues_iterOk es d1 d' it (h.replaceValue hp k v hrep) hp he
+    · cases he
+
+/-- cif_pktitr_update_packet keeps its iterator tied (the current packet is rewritten, the rows to come are not touched) -/
+theorem updatePacket_iterOk (s : Store) (it : Iter) (p : List (Str × V)) (h : IterOk it s.db) :
+    IterOk it (updatePacket s it p).1.db := by
   unfold updatePacket
-  split; · exact h2
-  split; · exact h2
+  split; · exact h
+  split; · exact h
+  rename_i hprev
   simp only []
   split
   · rename_i d2 hu
-    obtain ⟨a, b, c⟩ := updateValues_frame p _ d2 it hu
     have : (({ s.save with db := d2 } : Store).release.getD s.save).db = d2 := by
       unfold Store.release Store.save; rfl
     rw [this]
-    exact h2.mono a b (fun r hr => c _ _ r hr)
+    exact updateValues_iterOk p _ d2 it h (by omega) hu
   · have : (s.save.rollbackTo.getD s.save).db = s.db := by unfold Store.rollbackTo Store.save; rfl
-    rw [this]; exact h2
+    rw [this]; exact h
 
 /-- cif_pktitr_remove_packet: the iterator leaves the removed row behind; the rows still to come are untouched -/
 theorem removePacket_iterOk (s : Store) (it : Iter) (hinv : Inv s.db) (h : IterOk it s.db) :
@@ -208,10 +361,23 @@ theorem removePacket_iterOk (s : Store) (it : Iter) (hinv : Inv s.db) (h : IterO
   -- the database afterwards: same keys and categories, same items, every other row of the loop
   have key : ∀ d2 : Db, (∀ x ∈ d2.loops, ∃ y ∈ s.db.loops, x.cid = y.cid ∧ x.loopNum = y.loopNum ∧ x.category = y.category) →
       d2.items = s.db.items → d2.values = (s.db.removePacket it.cid it.loopNum it.prev.toNat).values →
+      (∃ x ∈ d2.loops, x.cid = it.cid ∧ x.loopNum = it.loopNum) →
       IterOk { it with prev := -1 } d2 := by
-    intro d2 hl hi hv
+    intro d2 hl hi hv hlk
     have hli : d2.loopItems it.cid it.loopNum = s.db.loopItems it.cid it.loopNum := by simp only [Db.loopItems, hi]
-    refine ⟨?_, ?_, ?_, ?_, h.sorted⟩
+    have hkeep : ∀ w ∈ s.db.values, w.rowNum ≠ it.prev.toNat → w ∈ d2.values := by
+      intro w hw hne
+      rw [hv]
+      show w ∈ s.db.values.filter (fun v => !(v.cid == it.cid && v.rowNum == it.prev.toNat && (s.db.loopItems it.cid it.loopNum).any (fun i => i.name == v.name)))
+      refine List.mem_filter.mpr ⟨hw, ?_⟩
+      have : (w.rowNum == it.prev.toNat) = false := by simpa using hne
+      simp [this]
+    have hsub : ∀ w ∈ d2.values, w ∈ s.db.values := by
+      intro w hw
+      rw [hv] at hw
+      have hw' : w ∈ s.db.values.filter (fun v => !(v.cid == it.cid && v.rowNum == it.prev.toNat && (s.db.loopItems it.cid it.loopNum).any (fun i => i.name == v.name))) := hw
+      exact (List.mem_filter.mp hw').1
+    refine ⟨?_, ?_, ?_, ?_, h.sorted, ?_, ?_, ?_, ?_, h.keys, h.fin, hlk⟩
     · intro k hk; show (d2.loopItems it.cid it.loopNum).any _ = true; rw [hli]; exact h.names k hk
     · intro x hx e1 e2
       obtain ⟨y, hy, k1, k2, k3⟩ := hl x hx
@@ -230,6 +396,18 @@ theorem removePacket_iterOk (s : Store) (it : Iter) (hinv : Inv s.db) (h : IterO
         have : w.rowNum ≠ it.prev.toNat := by rw [hwr]; omega
         simpa using this
       simp [this]
+    · show it.names = (d2.loopItems it.cid it.loopNum).map (·.name)
+      rw [hli]; exact h.namesEq
+    · intro x hx
+      obtain ⟨f1, f2, f3⟩ := h.fresh x hx
+      have hgt := (h.future x hx).2
+      exact ⟨hkeep x f1 (by omega), f2, by show (d2.loopItems it.cid it.loopNum).any _ = true; rw [hli]; exact f3⟩
+    · intro w hw hwc hwa hex
+      have hwa' : (s.db.loopItems it.cid it.loopNum).any (fun i => i.name == w.name) = true := by
+        have : (d2.loopItems it.cid it.loopNum).any (fun i => i.name == w.name) = true := hwa
+        rw [hli] at this; exact this
+      exact h.complete w (hsub w hw) hwc hwa' hex
+    · intro hp'; simp at hp'
   split
   · apply key
     · intro x hx
@@ -240,9 +418,12 @@ theorem removePacket_iterOk (s : Store) (it : Iter) (hinv : Inv s.db) (h : IterO
       split <;> exact ⟨rfl, rfl, rfl⟩
     · rfl
     · rfl
+    · obtain ⟨y, hy, k1, k2⟩ := h.loop
+      refine ⟨_, List.mem_map.mpr ⟨y, hy, rfl⟩, ?_, ?_⟩ <;> split <;> assumption
   · apply key
     · intro x hx; exact ⟨x, hx, rfl, rfl, rfl⟩
     · rfl
     · rfl
+    · exact h.loop
 
 end CifModel.Store
